@@ -160,6 +160,15 @@ class ProgramModel(DSOLModel):
             r.perform(self, eid, i, a)
         r.after_handler(self, eid)
 
+    def leaf(self, tag):
+        """Handler of events scheduled by listeners (C07): no children."""
+        r = self.r
+        r.hist.H.append(("exe", "L%s" % tag, _num(self.simulator.simulator_time),
+                         r.hist.tid()))
+        if r.ext is not None:
+            r.ext.on_leaf(r, self, tag)
+        r.after_handler(self, "L%s" % tag)
+
 
 class Runner:
     """Runs one case.  Sub-classed / parameterised by the property checks
@@ -384,6 +393,16 @@ class Runner:
             return None
         if name == "sleep":
             detsim.coop_sleep(cmd[1])
+            return None
+        if name == "drain":
+            # start() until the replication has ended (bounded)
+            for _ in range(cmd[1] if len(cmd) > 1 else 50):
+                s = self.snapshot()
+                if s[0] not in ("INITIALIZED", "STOPPED") or s[1] not in ("INITIALIZED", "STARTED") \
+                        or s[2] > _num(self.sim.replication.end_sim_time):
+                    break
+                self.do_cmd(["start"])
+                det.settle()
             return None
         i = self.cmd_index
         self.cmd_index += 1
